@@ -33,7 +33,7 @@ class ProgCheck(Check):
         if fl.startswith("par"):
             args.update({"W": rng.choice(self.par_W), "stay": rng.choice([0, 30, 60, 85, 95]), "own": rng.choice([30, 70, 95]),
                          "seed": rng.randrange(1, 1 << 30), "thr": rng.choice(cfg.get("thr", [64]))})
-        return {"flavour": fl, "kind": "prog", "args": args, "timeout": cfg.get("timeout", 300), "arm": name}
+        return {"flavour": fl, "kind": "prog", "args": args, "timeout": cfg.get("timeout", 120), "arm": name}
 
     def viol_key(self, v):
         key = parse_clause(v["clause"])
@@ -113,7 +113,7 @@ class ProgCheck(Check):
         pass
 
     def reproduce(self, replay, fresh=False):
-        r = self.run_job({"flavour": replay["flavour"], "kind": "prog", "args": replay["args"], "timeout": 300}, fresh)
+        r = self.run_job({"flavour": replay["flavour"], "kind": "prog", "args": replay["args"], "timeout": replay.get("timeout", 120)}, fresh)
         if not r["ok"]:
             return self.crash_key(None, r), "crash"
         exp = replay.get("expect")
